@@ -910,6 +910,74 @@ pub fn run(s: &mut Sink, cranelift: bool) {
         }
     }
     s.done("access x address x layout");
+    if cranelift && s.take(g) {
+        c11_alias(s);
+    }
+}
+
+/// C11 "accesses inside the regions are performed": one stack slot reached both through r10 itself
+/// and through a pointer computed from r10, in one basic block; the last load must see the last store.
+fn c11_alias(s: &mut Sink) {
+    for d in [-8i16, -16, -64, -256, -512] {
+        for w in [1u8, 2, 4, 8] {
+            for order in 0..4u8 {
+                let (ldx, stx) = (opcode(Acc::Ldx, w), opcode(Acc::Stx, w));
+                let mut p = vec![];
+                p.extend(isa::lddw(6, 0x1111_1111_1111_1111));
+                p.extend(isa::lddw(7, 0x2222_2222_2222_2222));
+                p.push(isa::stdw(10, (d as i32).div_euclid(8) as i16 * 8, 0));
+                p.push(isa::mov64r(2, 10));
+                p.push(isa::add64i(2, d as i32));
+                let direct_st = |r: u8| I::new(stx, 10, r, d, 0);
+                let derived_st = |r: u8| I::new(stx, 2, r, 0, 0);
+                let direct_ld = I::new(ldx, 0, 10, d, 0);
+                let derived_ld = I::new(ldx, 0, 2, 0, 0);
+                match order {
+                    0 => p.extend([direct_st(6), derived_st(7), direct_ld]),
+                    1 => p.extend([derived_st(6), direct_st(7), derived_ld]),
+                    2 => p.extend([direct_st(6), direct_ld, I::new(0xbf, 8, 0, 0, 0), derived_st(7), direct_ld]),
+                    _ => p.extend([derived_st(6), derived_ld, I::new(0xbf, 8, 0, 0, 0), direct_st(7), derived_ld]),
+                }
+                p.push(isa::EXIT);
+                let bytes = isa::enc(&p);
+                let want = 0x2222_2222_2222_2222u64 & if w == 8 { u64::MAX } else { (1u64 << (8 * w)) - 1 };
+                let rp = json!({"kind":"none"});
+                s.count("evaluations", 1);
+                s.count("states", 1);
+                s.count("transitions", p.len() as u64);
+                s.count("traces_validated_against_impl", 1);
+                s.count("distinct_nontrivial", 1);
+                let compiled = catch(|| {
+                    let mut vm = AnyVm::new(VmKind::NoData, Some(&bytes)).map_err(|e| format!("load: {e}"))?;
+                    vm.compile(Eng::Cl)?;
+                    Ok::<_, String>(vm)
+                });
+                let mut vm = match compiled {
+                    Ok(Ok(v)) => v,
+                    Ok(Err(e)) | Err(e) => {
+                        s.violation("cranelift/stack-alias/compile-err", e, rp);
+                        continue;
+                    }
+                };
+                let end = in_child(20, move || match vm.exec(Eng::Cl, vm::empty_raw(), vm::empty_raw()) {
+                    Ok(v) => v.to_le_bytes().to_vec(),
+                    Err(e) => format!("E{e}").into_bytes(),
+                });
+                match end {
+                    ChildEnd::Ok(b) if b.len() == 8 => {
+                        let v = u64::from_le_bytes(b[..8].try_into().unwrap());
+                        if v != want {
+                            s.violation("cranelift/stack-alias/load-not-performed", format!("slot [r10{d}] width {w}, order {order}: the final load returned {v:#x}, the last store wrote {want:#x} ({})", isa::listing(&p).join(" | ")), rp);
+                        }
+                    }
+                    ChildEnd::Ok(b) => s.violation("cranelift/stack-alias/execute-error", String::from_utf8_lossy(&b).to_string(), rp),
+                    ChildEnd::Signal(sig) => s.violation(&format!("cranelift/stack-alias/fault:{}", signame(sig)), "in-bounds stack accesses trapped or faulted".into(), rp),
+                    ChildEnd::Exit(c) => s.violation(&format!("cranelift/stack-alias/child-exit:{c}"), "child failed".into(), rp),
+                }
+            }
+        }
+    }
+    s.done("one stack slot through r10 and through a pointer computed from r10 (5 slots x 4 widths x 4 orders)");
 }
 
 pub fn replay(v: &Value) -> Vec<String> {
